@@ -54,6 +54,7 @@ type skelRec struct {
 	Classes  []string          `json:"classes"`  // index gap
 	Zones    []string          `json:"zones"`    // index gap
 	Cats     map[string]string `json:"cats"`     // trivia kind -> category
+	Comments []string          `json:"commentkinds"`
 	Items    []string          `json:"items"`
 	Kinds    []string          `json:"kinds"`
 	Deps     []string          `json:"deps"`
@@ -169,16 +170,33 @@ func (s *skelRec) render(pl []placement) (string, int) {
 	return sb.String(), eof
 }
 
+// features lists the features of the placements.  Order (it matters only for classes built from several
+// features, whose leading feature decides the family a known finding can name): comments inside a statement
+// first, then other comments, then whitespace; alphabetical within each group.
 func (s *skelRec) features(pl []placement) []string {
-	set := map[string]bool{}
+	set := map[string]int{}
 	for _, p := range pl {
-		set[s.Cats[p.Kind]+"@"+s.Zones[p.Gap]+"("+s.Classes[p.Gap]+")="+p.Kind] = true
+		rank := 2
+		for _, k := range s.Comments {
+			if k == p.Kind {
+				rank = 1
+				if s.Zones[p.Gap] == "inside" {
+					rank = 0
+				}
+			}
+		}
+		set[s.Cats[p.Kind]+"@"+s.Zones[p.Gap]+"("+s.Classes[p.Gap]+")="+p.Kind] = rank
 	}
 	out := make([]string, 0, len(set))
 	for f := range set {
 		out = append(out, f)
 	}
-	sort.Strings(out)
+	sort.Slice(out, func(i, j int) bool {
+		if set[out[i]] != set[out[j]] {
+			return set[out[i]] < set[out[j]]
+		}
+		return out[i] < out[j]
+	})
 	return out
 }
 
@@ -759,7 +777,7 @@ func runCase(s *skelRec, lc *layRec) {
 	c := &caseRun{s: s, memo: map[string]outcome{}}
 	pl := sortPl(lc.Pl)
 	// the feature vector the specification computed must be the one the classes give
-	if f := c.s.features(pl); !eqStrs(f, sortedCopy(lc.Feat)) {
+	if f := c.s.features(pl); !eqStrs(sortedCopy(f), sortedCopy(lc.Feat)) {
 		harnessErrs.Add(1)
 		emit(result{Prop: "HARNESS", Class: "HARNESS:features", Skel: s.Skel, Pl: pl, Detail: fmt.Sprintf("spec %v driver %v", lc.Feat, f)})
 		return
